@@ -98,7 +98,7 @@ theorem skFromSecretExponent_source (E : Ext) (c : Curve) (secexp : Int) :
       if Gen.Ecdsa.secexp_bad secexp c.n then .error .malformedPoint
       else
         match E.pubPoint c secexp.toNat with
-        | none => .error .typeError
+        | none => .error .malformedPoint
         | some (x, y) =>
           match fromPublicPoint E c x y false with
           | .error e => .error e
